@@ -86,6 +86,30 @@ CHECKS = {
         note='Trusted: z3, IR executor, stubs. Python counters: checks/pylayer.py.',
         technique='symbolic execution of LLVM IR to SMT (z3), path-chained call histories',
         design_ref='DESIGN.md section 4 C19'),
+    'C14': dict(
+        level='model_checking',
+        text='E-RX: the file-name grammars (RF, metadata, combined, properties, subdirectory) are shown equal to their intended languages, '
+             'mutually disjoint where required and never accepting tmp.-prefixed names (z3 regex emptiness, all strings). E-CH: CrossHair '
+             'confirms over all paths that _decorated_list_slice selects exactly the inclusive window (+ forward fill, ties included) for up '
+             'to 3 sorted entries, and that _yield_matching_files on an in-memory channel (3 subdirectories, symbolic existence of up to 4 '
+             'files, symbolic window, each subdirectory possibly vanishing) yields exactly the in-window files in time order, plus the latest '
+             'earlier metadata file, never raises, and that reversing only reverses the order (16 per-case harnesses).',
+        note='Trusted: z3, CrossHair, the in-memory os.listdir, a pure-Python bisect (stdlib reference implementation) and an integer-backed '
+             'timedelta-like bound. The ilsdrf tree walk (nested channels, property files) is covered through C15/C18 harnesses only partly.',
+        technique='z3 regular-expression emptiness + CrossHair symbolic execution of the real listing functions',
+        design_ref='DESIGN.md section 4 C14'),
+    'C15': dict(
+        level='proof',
+        text='E-RX: for each of the 15 effective include-flag combinations the union of the regexes the real DigitalRFEventHandler compiles '
+             '(read from the object, incl. IGNORECASE) is compared with the language of listable paths built from the regexes the real lister '
+             'consults under the same flags (observed by instrumenting _yield_matching_files / ilsdrf): both inclusions are z3 regex-emptiness '
+             'queries over the property\'s bounded path grammar, all unsat; tmp.-prefixed names are rejected by both. E-CH: CrossHair confirms '
+             'over all paths the inclusive window on secs*1000+frac, the untimed / match_time=False bypass, move -> created/deleted/moved '
+             'conversion and that directory events are dropped, on the real dispatch() with stub matchers.',
+        note='Trusted: z3 sequence/regex theory, the re->z3 translation (validated against Python re on seeded strings every run), CrossHair, '
+             'watchdog event classes. Domain restrictions are those of the property (format case, format depth).',
+        technique='z3 regular-expression emptiness over Python re patterns + CrossHair on the real dispatch',
+        design_ref='DESIGN.md section 4 C15'),
 }
 
 NOT_YET = 'check not built yet in this revision of /verif (planned, see DESIGN.md section 4)'
